@@ -9,7 +9,7 @@ CLAIMED = {
  "C05": dict(
    cat="exploration", ref="DESIGN.md section 3, C05",
    technique="runtime differential monitor: every vm.Execute result (value and dynamic type) compared with native Go int64/float64/string arithmetic over a completely enumerated boundary-pool product plus PRNG expression trees",
-   text="Differential runtime monitor against native Go arithmetic. The operator x operand-pair table over the int64/float64 boundary pools (cache edges, 2^31, 2^53, 2^63 edges, +-0, inf, NaN) is enumerated completely on every run, in literal and variable provenance; expression trees crossing the small-int cache are PRNG-generated. Held means: no observed evaluation differed in value, dynamic type or error status.",
+   text="Differential runtime monitor against native Go arithmetic. The operator x operand-pair table over the int64/float64 boundary pools (cache edges, 2^31, 2^53, 2^63 edges, +-0, inf, NaN) is enumerated completely on every run, in literal and variable provenance; expression trees crossing the small-int cache are PRNG-generated, as are unparenthesised chains of one precedence level (judged against the step-by-step left fold); a race-build phase runs 8 independent interpreters at once on integer chains whose every result a host probe recomputes natively. Held means: no observed evaluation differed in value, dynamic type or error status.",
    note="Trusted: Go's arithmetic/strconv/fmt as reference; the reading of the statement for operand kinds it names. Not judged: operands the statement is silent on (bool/nil operands, float operands of % & | << >>, n*string)."),
 }
 NOT_YET = {}
@@ -22,7 +22,7 @@ CLAIMED.update({
  "C18": dict(
    cat="exploration", ref="DESIGN.md section 3, C18",
    technique="runtime differential monitor at process level: the anko binary built from /repo is run on every script (file mode with trailing arguments and -e mode) next to a library driver executing vm.Execute on the same source in an equally prepared environment; stdout, diagnostic line and exit status are compared",
-   text="53 fixed scripts and PRNG template programs (unchanged, with a parse error injected at a random token, with a run error injected after k prints, reading args, importing bundled packages, unreadable paths); required: CLI stdout = library stdout plus exactly one diagnostic line iff the library returned an error; exit 0 iff no error, 4 on parse/run error, 2 for an unreadable file; args as seen by the script.",
+   text="53 fixed scripts and PRNG template programs (unchanged, with a parse error injected at a random token, with a run error injected after k prints, reading args, importing bundled packages, unreadable paths, load() of missing/unparsable files at top level, in functions and in try, defined() on the script's own names); required: CLI stdout = library stdout plus exactly one diagnostic line iff the library returned an error; exit 0 iff no error, 4 on parse/run error, 2 for an unreadable file; args as seen by the script.",
    note="Trusted: the library driver in a child process of the worker as reference. Not judged: stderr, the diagnostic's wording, interactive mode, -e \"\"; a mismatch must reproduce on a second run of both sides, else it is inconclusive."),
  "C19": dict(
    cat="exploration", ref="DESIGN.md section 3, C19",
@@ -32,7 +32,7 @@ CLAIMED.update({
  "C02": dict(
    cat="exploration", ref="DESIGN.md section 3, C02",
    technique="runtime monitor over non-terminating programs: after cancel() returned, the call must return with 'execution interrupted' within a logical budget of probe events; a call that does not return is classified from two goroutine-state samples and process CPU time",
-   text="Every core (all loop forms, nested for-in, unbounded recursion through functions of 0/1/3/6/variadic parameters, tick-less loops, every blocking channel operation) under every single wrapper (29 wrapping constructs: call paths, go, try/catch/finally bodies, both sides of ??, ternary, call argument, deferred callees, switch, branches, callbacks handed to Go func types) in both positions is enumerated completely each run, plus PRNG wrapper chains up to depth 3; cancellation lands synchronously at the k-th probe (k swept) or asynchronously after 0-3 ms at GOMAXPROCS 1/2/16.",
+   text="Every core (all loop forms, nested for-in, unbounded recursion through functions of 0/1/3/6/variadic parameters, tick-less loops, every blocking channel operation) under every single wrapper (29 wrapping constructs: call paths, go, try/catch/finally bodies, both sides of ??, ternary, call argument, deferred callees, switch, branches, callbacks handed to Go func types) in both positions is enumerated completely each run, plus PRNG wrapper chains up to depth 3; cancellation lands synchronously at the k-th probe (k swept) or asynchronously after 0-3 ms at GOMAXPROCS 1/2/16. A contended phase lets the script consume a buffered channel (range / receive forms) while host goroutines take values from the same channel; once the feed has stopped and the buffer is empty the context is cancelled (150 trials per case). Callback wrappers include Go func types with an error result.",
    note="Trusted: the budget of 2*(ticks per cycle)+wrappers+2 post-cancel probe events as 'may finish the expression in progress'; the goroutine-state classifier (parked in vm frames = missed interrupt, parked under a host frame = documented exemption). Wall-clock expiry alone is inconclusive."),
  "C03": dict(
    cat="exploration", ref="DESIGN.md section 3, C03",
@@ -67,12 +67,12 @@ CLAIMED.update({
  "C10": dict(
    cat="exploration", ref="DESIGN.md section 3, C10",
    technique="history + executable model: every operation of a generated history is executed as its own vm.Execute call and, in parallel, on native Go slices/maps/strings/struct values (reflect); after every operation contents, length, capacity relation and aliasing of every container variable are compared",
-   text="An exhaustive phase crosses a 15-value index universe (negative, 0, in range, len, len+1, +-2^40, non-numeric string, nil, slice, map) with read/write/slice(2,3)/call variants on untyped and typed slices and strings, and 16 keys with read/write/delete/member on untyped and typed maps; random histories of 10-40 operations (6000 quick / 150000 thorough) add append forms, aliasing through assignment, slicing and calls, struct fields of every basic and container type. An error must leave every container unchanged (deep comparison with the snapshot taken before).",
-   note="Trusted: Go's own slices/maps/strings as the model; capacity after a growing append is adopted from the live object (unspecified by Go). Excluded: numeric-string/float/bool indices, reslice high bound in (len,cap], struct value copy-vs-alias, in on maps/strings, multi-byte string stores."),
+   text="An exhaustive phase crosses a 15-value index universe (negative, 0, in range, len, len+1, +-2^40, non-numeric string, nil, slice, map) with read/write/slice(2,3)/call variants on untyped and typed slices and strings, and 16 keys with read/write/delete/member on untyped and typed maps; random histories of 10-40 operations (6000 quick / 150000 thorough) add append forms, aliasing through assignment, slicing and calls, struct fields of every basic and container type. An error must leave every container unchanged (deep comparison with the snapshot taken before). Fixed histories cover names bound to elements of nested slices (for variable, spreading var, parameter, copy) and decimal-numeral string indices (accepted: an error, or exactly what the integer does).",
+   note="Trusted: Go's own slices/maps/strings as the model; capacity after a growing append is adopted from the live object (unspecified by Go). Excluded: float/bool indices, numeric strings other than decimal numerals, reslice high bound in (len,cap], struct value copy-vs-alias, in on maps/strings, multi-byte string stores."),
  "C20": dict(
    cat="exploration", ref="DESIGN.md section 3, C20",
    technique="runtime metamorphic monitor: every operation template is instantiated with its operand supplied through each provenance (variable, element, map entry, member, struct field, script call, Go call returning interface{}, parentheses, ternary, ??, parameter, var, channel receive, module member, multi-result) and must agree with the plain-variable instantiation in outcome class, value, dynamic type, identity and side effects",
-   text="203 operation templates x 27 operand kinds x 21 provenance atoms: every (template, value, atom) is enumerated completely each run; chains of length 2-3 are PRNG-sampled (thorough: all length-2 chains); each instantiation runs in a fresh environment with fresh operand objects; effects are observed from Go after the run.",
+   text="203 operation templates x 27 operand kinds x 21 provenance atoms: every (template, value, atom) is enumerated completely each run; chains of length 2-3 are PRNG-sampled (thorough: all length-2 chains); each instantiation runs in a fresh environment with fresh operand objects; effects are observed from Go after the run. A pairs phase (complete list) compares arguments bound by spreading a list (plain, with leading arguments, through a Go call, under defer and go) with the same arguments written out, for callees that overwrite the list, keep a closure, assign their parameter or apply kind-sensitive operators.",
    note="Trusted: the variable instantiation as reference (so a defect that affects all provenances alike is out of this check's reach — other properties cover those). Excluded: a,b = <index expr> (comma-ok statement by grammar), &X, the value of X++ / X op= e, stores needing an assignable target, struct value field stores through boxing provenances."),
  "C11": dict(
    cat="exploration", ref="DESIGN.md section 3, C11",
@@ -92,7 +92,7 @@ CLAIMED.update({
  "C14": dict(
    cat="exploration", ref="DESIGN.md section 3, C14",
    technique="runtime structural + differential monitor: reflection dump of the shared parsed tree before/after every run, observation equality between a solo run and repeated/concurrent runs of one tree on fresh environments, canaries on process-global interpreter state, Go race detector on the concurrent phase",
-   text="Each program (27 feature programs aimed at per-node runtime data and import tables, generated programs of every profile, the repository's goroutine-free scripts) is parsed once; sequential phase: 3 runs in fresh equal environments with a dump comparison after each; concurrent phase in the race build: 8 goroutines run the one shared tree behind a barrier on 8 fresh environments and must each reproduce the solo run's value, error text and probe trace; after every case canaries check the shared ++ literal, the small-int cache, the package-table sizes and that a fresh environment's imports are pristine.",
+   text="Each program (35 feature programs incl. large-integer arithmetic and maps that grow while ranged over (8 reruns each); further programs aimed at per-node runtime data and import tables, generated programs of every profile, the repository's goroutine-free scripts) is parsed once; sequential phase: 3 runs in fresh equal environments with a dump comparison after each; concurrent phase in the race build: 8 goroutines run the one shared tree behind a barrier on 8 fresh environments and must each reproduce the solo run's value, error text and probe trace; after every case canaries check the shared ++ literal, the small-int cache, the package-table sizes and that a fresh environment's imports are pristine.",
    note="Trusted: astx dump completeness (generic over struct fields, so added fields are seen). Skipped as outside repeatability: corpus scripts using import, goroutines, channels, map iteration, keys(), printing, time."),
  "C15": dict(
    cat="exploration", ref="DESIGN.md section 3, C15",
@@ -102,12 +102,12 @@ CLAIMED.update({
  "C16": dict(
    cat="exploration", ref="DESIGN.md section 3, C16",
    technique="runtime delivery monitor over generated pipeline programs: every message carries a unique (producer, sequence) id; the consumer's collected sequence is checked for exactly-once FIFO delivery and element conversion; termination is decided by a goroutine-state sampler; half of the runs execute under the Go race detector",
-   text="An exhaustive semantics table (9 scenarios x 7 element types x 3 capacities: receive on closed-and-drained, two-value form, range until close, send on closed, double close, capacity) plus PRNG pipelines of 1-4 stages over buffered/unbuffered typed and interface channels with every receive form, named/anonymous/variadic go launches with arguments reassigned right after the go statement, fan-in and fan-out, n in {0,1,2,50,1000}, host jitter at PRNG points, GOMAXPROCS 1/2/4/16 and repetitions; arrival interleavings at the fan-in consumer are counted as the measure of schedule diversity.",
+   text="An exhaustive semantics table (9 scenarios x 7 element types x 3 capacities: receive on closed-and-drained, two-value form, range until close, send on closed, double close, capacity) plus PRNG pipelines of 1-4 stages over buffered/unbuffered typed and interface channels with every receive form, one function value entered by 20 goroutines at a time, generator-style functions that return before their goroutine runs, named/anonymous/variadic go launches with arguments reassigned right after the go statement, fan-in and fan-out, n in {0,1,2,50,1000}, host jitter at PRNG points, GOMAXPROCS 1/2/4/16 and repetitions; arrival interleavings at the fan-in consumer are counted as the measure of schedule diversity.",
    note="Trusted: the sampler's classification (every anko goroutine parked in a channel operation in two samples = deadlock/lost message; anything else inconclusive). Not judged: nil messages, channels as messages, inexact conversions, errors inside go bodies (C01), unsynchronised shared containers."),
  "C17": dict(
    cat="exploration", ref="DESIGN.md section 3, C17",
    technique="runtime structural monitor: the node set and parent relation computed by reflection (independent of astutil) is compared with what astutil.Walk presents; callback failure injected at every position",
-   text="A deterministic matrix of 33049 programs (every expression template in every expression hole, every statement template in every block hole; a node type or child field that never occurred fails as no-coverage), the repository's own scripts, and PRNG nestings; for each, Walk must return nil, present every reflected node after its parent, and with the callback failing at call k (all k for small programs) return that error without further calls.",
+   text="A deterministic matrix of 33049 programs (every expression template in every expression hole, every statement template in every block hole; a node type or child field that never occurred fails as no-coverage), the repository's own scripts, and PRNG nestings; long unparenthesised operator chains (31-300 terms) are part of the matrix; a walk re-entered from its own callback and four concurrent walks must present exactly what the undisturbed walk presented; for each, Walk must return nil, present every reflected node after its parent, and with the callback failing at call k (all k for small programs) return that error without further calls.",
    note="Trusted: astx reflection traversal. Synthetic nodes Walk fabricates are allowed; sibling order and multiplicity are not judged."),
 })
 ALL = ["C%02d" % i for i in range(1, 21)]
